@@ -132,43 +132,42 @@ Definition tr (n : nsp) (e : expr) : res expr := transf n [] e.
 Definition is_interrupt (s : stmt) : bool :=
   match s with SBreak | SContinue | SReturn _ => true | _ => false end.
 
+(* "some statement of the block that the traversal reaches satisfies f": statements after a literal
+   break/continue/return are never converted *)
+Section ExLive.
+  Variable f : stmt -> bool.
+  Fixpoint ex_live (b : list stmt) : bool :=
+    match b with [] => false | x :: r => f x || (if is_interrupt x then false else ex_live r) end.
+End ExLive.
+
 (* a `return` is converted somewhere inside s (not crossing def/class; dead code is never converted) *)
 Fixpoint has_ret (s : stmt) : bool :=
-  let blk := fix blk (b : list stmt) : bool :=
-    match b with [] => false | x :: r => has_ret x || (if is_interrupt x then false else blk r) end in
   match s with
   | SReturn _ => true
-  | SIf _ b o | SWhile _ b o | SFor _ _ b o => blk b || blk o
+  | SIf _ b o | SWhile _ b o | SFor _ _ b o => ex_live has_ret b || ex_live has_ret o
   | _ => false
   end.
-Fixpoint has_ret_block (b : list stmt) : bool :=
-  match b with [] => false | x :: r => has_ret x || (if is_interrupt x then false else has_ret_block r) end.
+Definition has_ret_block (b : list stmt) : bool := ex_live has_ret b.
 
 (* converting s bumps interrupt_cnt of the loop whose body level s sits on *)
 Fixpoint mi_loop (s : stmt) : bool :=
-  let blk := fix blk (b : list stmt) : bool :=
-    match b with [] => false | x :: r => mi_loop x || (if is_interrupt x then false else blk r) end in
   match s with
   | SBreak | SContinue | SReturn _ => true
-  | SIf _ b o => blk b || blk o
-  | SWhile _ b o | SFor _ _ b o => has_ret_block b || blk o
+  | SIf _ b o => ex_live mi_loop b || ex_live mi_loop o
+  | SWhile _ b o | SFor _ _ b o => has_ret_block b || ex_live mi_loop o
   | _ => false
   end.
-Fixpoint mi_block (b : list stmt) : bool :=
-  match b with [] => false | x :: r => mi_loop x || (if is_interrupt x then false else mi_block r) end.
+Definition mi_block (b : list stmt) : bool := ex_live mi_loop b.
 
 (* converting s bumps break_cnt of that loop *)
 Fixpoint brk_loop (s : stmt) : bool :=
-  let blk := fix blk (b : list stmt) : bool :=
-    match b with [] => false | x :: r => brk_loop x || (if is_interrupt x then false else blk r) end in
   match s with
   | SBreak | SReturn _ => true
-  | SIf _ b o => blk b || blk o
-  | SWhile _ b o | SFor _ _ b o => has_ret_block b || blk o
+  | SIf _ b o => ex_live brk_loop b || ex_live brk_loop o
+  | SWhile _ b o | SFor _ _ b o => has_ret_block b || ex_live brk_loop o
   | _ => false
   end.
-Fixpoint brk_block (b : list stmt) : bool :=
-  match b with [] => false | x :: r => brk_loop x || (if is_interrupt x then false else brk_block r) end.
+Definition brk_block (b : list stmt) : bool := ex_live brk_loop b.
 
 (* _iter_branch opens a new guarded segment somewhere in b *)
 Fixpoint has_boundary (bumps : stmt -> bool) (b : list stmt) : bool :=
@@ -179,20 +178,15 @@ Fixpoint has_boundary (bumps : stmt -> bool) (b : list stmt) : bool :=
 
 (* get_flow_ctrl_expr of the current loop (bumps = mi_loop) / function (bumps = has_ret) is called
    from one of the blocks that sit on its level *)
-Fixpoint uses_flag_stmt (bumps : stmt -> bool) (in_loop : bool) (s : stmt) : bool :=
-  let blk := fix blk (b : list stmt) : bool :=
-    has_boundary bumps b ||
-    (fix ex (b : list stmt) : bool :=
-       match b with [] => false | x :: r => uses_flag_stmt bumps in_loop x || (if is_interrupt x then false else ex r) end) b in
+Fixpoint uses_flag_stmt (bumps : stmt -> bool) (s : stmt) : bool :=
   match s with
-  | SIf _ b o => blk b || blk o
-  | SWhile _ _ o | SFor _ _ _ o => blk o
+  | SIf _ b o =>
+      (has_boundary bumps b || ex_live (uses_flag_stmt bumps) b) || (has_boundary bumps o || ex_live (uses_flag_stmt bumps) o)
+  | SWhile _ _ o | SFor _ _ _ o => has_boundary bumps o || ex_live (uses_flag_stmt bumps) o
   | _ => false
   end.
 Definition uses_flag (bumps : stmt -> bool) (b : list stmt) : bool :=
-  has_boundary bumps b ||
-  (fix ex (b : list stmt) : bool :=
-     match b with [] => false | x :: r => uses_flag_stmt bumps true x || (if is_interrupt x then false else ex r) end) b.
+  has_boundary bumps b || ex_live (uses_flag_stmt bumps) b.
 
 (* ---------- contexts ---------- *)
 Definition path := list nat.   (* position of a statement, innermost index first *)
@@ -564,12 +558,10 @@ End Stmts.
 (* ---------- module ---------- *)
 (* the three flags of NamespaceGlobal: set when a statement of that kind is *visited* *)
 Fixpoint visits (f : stmt -> bool) (s : stmt) : bool :=
-  let blk := fix blk (b : list stmt) : bool :=
-    match b with [] => false | x :: r => visits f x || (if is_interrupt x then false else blk r) end in
   f s ||
   match s with
-  | SIf _ b o | SWhile _ b o | SFor _ _ b o => blk b || blk o
-  | SFunctionDef _ _ _ b _ | SClassDef _ _ _ _ b _ => blk b
+  | SIf _ b o | SWhile _ b o | SFor _ _ b o => ex_live (visits f) b || ex_live (visits f) o
+  | SFunctionDef _ _ _ b _ | SClassDef _ _ _ _ b _ => ex_live (visits f) b
   | _ => false
   end.
 
@@ -578,12 +570,9 @@ Definition import_lib (lib : string) : expr := NamedExpr lib (call (Name "__impo
 Definition lower_module (cfg : config) (root : symtab) (body : list stmt) : res expr :=
   let! g := generate_nsp (cfg_host_lt_312 cfg) root in
   let c := mkCtx g [] false in
-  let! stmts :=
-    (fix go (b : list stmt) (i : nat) : res (list expr) :=
-       match b with
-       | [] => ret []
-       | s :: r => let! a := lower_stmt cfg c [i] s in let! rest := go r (S i) in ret (a ++ rest)
-       end) body 0 in
+  (* PendingModule converts its statements one after the other; at module level no statement can be a
+     (legal) break/continue/return, so this is _iter_branch without guards *)
+  let! stmts := lower_block cfg (fun c0 p0 s0 => lower_stmt cfg c0 p0 s0) c [] 0 0 body in
   let any := fun f => existsb (visits f) body in
   let use_itertools := any (fun s => match s with SWhile _ _ _ => true | _ => false end) in
   let use_importlib := any (fun s => match s with SImport _ => true | _ => false end) in
